@@ -133,6 +133,7 @@ def build(case: Dict[str, Any]):
                                     "min_channel_size": 4, "max_channel_size": 24}
     disc, box = spaces.Discrete(4), spaces.Box(-1.0, 1.0, (2,), np.float32)
     samp = lambda r, n: (_sample_input(sp, r, n),)
+    case["_declared"] = {k: v for k, v in nc.items() if k in ("latent_dim", "min_latent_dim", "max_latent_dim")}
     if kind == "QNetwork":
         return QNetwork(sp, disc, **nc), samp, ("tensor", (4,))
     if kind == "RainbowQNetwork":
@@ -402,6 +403,13 @@ def _run(ctx: kernel.Ctx, prop: str, case: Dict[str, Any], loc: Dict[str, Any]) 
         return fresh
 
     check_forward(m, "after construction")
+    declared = case.get("_declared") or {}
+    if c3:
+        # the bounds that count are the ones the caller declared: a network that quietly replaces them with its defaults stays "inside its bounds" forever
+        for key, want in sorted(declared.items()):
+            have = getattr(m, key, None)
+            if have is not None and have != want:
+                ctx.report("C03/declared_bound_ignored", f"after construction: {key} was declared as {want}, the network works with {have}", bound=key, **loc)
     for oi, op in enumerate(case["ops"]):
         ctx.op_index = oi
         ctx.steps += 1
@@ -485,6 +493,10 @@ def _run(ctx: kernel.Ctx, prop: str, case: Dict[str, Any], loc: Dict[str, Any]) 
             if c3:
                 check_forward(m2, when)
                 check_bounds(cnt_before, cnt_after, when)
+                if "max_latent_dim" in declared and getattr(m2, "latent_dim", None) is not None:
+                    ld = int(m2.latent_dim)
+                    if not (declared.get("min_latent_dim", ld) <= ld <= declared["max_latent_dim"]) and ld != int(getattr(m, "latent_dim", ld)):
+                        ctx.report("C03/out_of_bounds", f"{when}: latent_dim = {ld} outside the declared [{declared.get('min_latent_dim')}, {declared['max_latent_dim']}]", count="latent_dim", **loc)
                 rebuild(m2, when)
                 rel = _relevant(cnt_before, name)
                 if not changed and not _could_be_blocked(rel, base):
